@@ -115,6 +115,7 @@ class C06(Prop):
             lines.append(fa.line())
             feats.append((fa, link))
         ext_l = ext if with_ext else []
+        units = G.blanked(rnd, units, self._routes)
         l = 'mtag %d %s %d %s %d %s %d %s' % (len(pshape), ' '.join(str(s) for s in pshape), len(pos), ' '.join(G.enc(p) for p in pos),
                                              len(ext_l), ' '.join(G.enc(e) for e in ext_l), len(units), ' '.join(G.encs(u) for u in units))
         lines.append(' '.join(l.split()))
@@ -191,6 +192,11 @@ class C06(Prop):
                 else:
                     lines.append('mfeature %d %s %s' % (j, m, idx_list()))
                     lines.append('mfeature1 %d %s %d' % (j, m, one_idx()))
+        if rnd.random() < 0.3:
+            lines += G.direct_queries(rnd, ref, rc)
+        if N and kinds != ['A'] and rnd.random() < 0.35:
+            lines.append('mwtagged1 0 %s %d' % (rnd.choice(G.MODES), one_idx()))   # region i written through the view, read back
+            rc['mwtagged1'] = rc.get('mwtagged1', 0) + 1
         if rnd.random() < 0.15:
             lines.append('mfeature1 %d %s %d' % (len(feats) + rnd.choice([0, 2]), rnd.choice(G.MODES), one_idx()))
         # every such query aborts the pinned library (sanitizer) and costs a driver restart; the engine gives up after 400
@@ -208,6 +214,7 @@ class C06(Prop):
         # which public entry points exist and how many query lines of this run went through each
         ctx['ev']['entry_points'] = {k: G.ROUTES[k] for k in ('mtagged1', 'mtagged', 'mfeature1', 'mfeature')}
         ctx['ev']['entry_points_plain'] = {k: G.PLAIN_ROUTES[k] for k in ('moffcnt', 'moffcnt1')}
+        ctx['ev']['entry_points_direct'] = {k: G.DIRECT[k] for k in ('dimunit', 'indata', 'pti1', 'ptiv', 'mwtagged1', 'units-with-blanks', 'FC-dimension')}
         ctx['ev']['query_lines_per_route'] = dict(sorted(self._routes.items()))
         return []
 
